@@ -2,6 +2,8 @@ import VlsModel.Model.Payments
 import VlsModel.Gen.FnSimplePay
 import VlsModel.Gen.FnEnforceVal
 import VlsModel.Gen.FnNodePay
+import VlsModel.Gen.FnApproverC06
+import VlsModel.Gen.FnNodeApprove
 import VlsModel.Lemmas.FnGen
 import VlsModel.Lemmas.PaymentsFn
 import VlsModel.Lemmas.PaymentsFnSummary
@@ -746,7 +748,9 @@ theorem C06_fn_validate_payments_enforce (v : SimpleValidator) (s : NS) (c : Nat
 def exNode : Node :=
   { Node.init 2 ⟨10000, 10, 5⟩ with invoices := fun h => if h = 7 then some ⟨2000000, 100, [0, 7]⟩ else none,
                                      payments := fun h => if h = 7 then some Payment.new else none }
-def exState : NS := { invoices := [(7, ⟨2000000⟩)], payments := [(7, RoutedPayment.new)], excess_amount := 0 }
+def exState : NS :=
+  { invoices := [(7, { amount_msat := 2000000, is_fulfilled := false })], issued_invoices := [],
+    payments := [(7, RoutedPayment.new)], excess_amount := 0 }
 def exEff (v : Nat) : Info := ⟨[], [⟨7, v, 500⟩]⟩
 
 example (v : Nat) (hv : v ≤ 1000000) :
@@ -786,4 +790,142 @@ theorem C06_fn_has_preimage (n : Node) (s : NS) (h : Hash) (hpay : n.payments h 
   rw [hpay]
   cases Rs.omapGet s.payments h <;> rfl
 
+end VlsModel.Props.C06Fn
+
+namespace VlsModel.Props.C06Fn
+open VlsModel VlsModel.Payments
+open VlsModel.Gen.FnApproverC06
+
+/-! ### The approvers and the proposal handlers of `vls-protocol-signer/src/approver.rs` (area `ApproverC06`, round 9)
+
+`handle_proposed_invoice` / `handle_proposed_keysend` are default methods of the trait `Approve`: the generated
+definitions take the required methods (`approve_invoice`, `approve_keysend`) and the `Node` methods they call as explicit
+parameters.  `add_invoice` / `add_keysend` CHANGE the node; they are declared as externals only because the call is in
+tail position (nothing of the node is read afterwards): the generated definition says which request a proposal turns
+into and what is answered; the request itself is the model's `approve` op.  Below they are instantiated with the model:
+`hasPay` (the reading of `Node::has_payment`: same invoice hash = `Ok(true)`, another one = `Err`, none = `Ok(false)`),
+`addAns` (the answer of `Node.exec (.approve …)`).  The theorems show that the model's `proposalOp` - the mapping the
+driver applies to every proposal line - followed by `Node.exec` gives exactly the answers of the generated handlers. -/
+
+/-- the three shipped approvers answer constantly (the driver's `approverYes` flag) -/
+theorem C06_fn_positive_approve_invoice {S I : Type} (s : S) (i : I) : PositiveApprover.approve_invoice s i = true := rfl
+theorem C06_fn_positive_approve_keysend {S H : Type} (s : S) (h : H) (a : Nat) : PositiveApprover.approve_keysend s h a = true := rfl
+theorem C06_fn_positive_approve_onchain {S T O : Type} (s : S) (t : T) (p : List O) (u : List Nat) :
+    PositiveApprover.approve_onchain s t p u = true := rfl
+theorem C06_fn_warning_approve_invoice {S I : Type} (s : S) (i : I) : WarningPositiveApprover.approve_invoice s i = true := rfl
+theorem C06_fn_warning_approve_keysend {S H : Type} (s : S) (h : H) (a : Nat) :
+    WarningPositiveApprover.approve_keysend s h a = true := rfl
+theorem C06_fn_warning_approve_onchain {S T O : Type} (s : S) (t : T) (p : List O) (u : List Nat) :
+    WarningPositiveApprover.approve_onchain s t p u = true := rfl
+theorem C06_fn_negative_approve_invoice {S I : Type} (s : S) (i : I) : NegativeApprover.approve_invoice s i = false := rfl
+theorem C06_fn_negative_approve_keysend {S H : Type} (s : S) (h : H) (a : Nat) : NegativeApprover.approve_keysend s h a = false := rfl
+theorem C06_fn_negative_approve_onchain {S T O : Type} (s : S) (t : T) (p : List O) (u : List Nat) :
+    NegativeApprover.approve_onchain s t p u = false := rfl
+
+/-- `Node::has_payment(hash, invoice_hash)` as the model reads it -/
+def hasPay (n : Node) (h : Hash) (id : List Nat) : Rs.M Bool :=
+  match n.invoices h with
+  | some old => if old.id = id then .ok true else .error (.err "failed-precondition")
+  | none => .ok false
+
+/-- the answer of a request the model executes: accepted = `Ok(true)`, not accepted = `Ok(false)` or `Err` (the model's
+    Boolean does not separate them), `none` = panic -/
+def addAns : Option (Node × Bool) → Rs.M Bool
+  | some (_, b) => .ok b
+  | none => .error .panic
+
+/-- what the caller sees: `Err(_)` counts as "not accepted" -/
+def ans : Rs.M Bool → Option Bool
+  | .ok b => some b
+  | .error (.err _) => some false
+  | .error _ => none
+
+theorem ans_addAns (x : Option (Node × Bool)) : ans (addAns x) = x.map (·.2) := by
+  cases x with
+  | none => rfl
+  | some y => rfl
+theorem ans_ok (b : Bool) : ans (Except.ok b) = some b := rfl
+theorem ans_err (t : String) : ans (Except.error (.err t)) = some false := rfl
+
+/-- **`handle_proposed_invoice`** (generated) = `Node.exec (proposalOp true allowlisted approverYes …)`: the `has_payment`
+    shortcut, then the allowlist (WITHOUT asking the approver), then the approver -/
+theorem C06_fn_handle_proposed_invoice (n : Node) (h : Hash) (inv : Invoice) (now : Nat) (allowlisted approverYes : Bool) :
+    ans (Approve.handle_proposed_invoice (SelfT := Unit) (Node := Node) (Invoice := Invoice) (PaymentHash := Hash)
+          (PaymentState := Unit) (InvoiceHash := List Nat) (PublicKey := Unit)
+          (fun i => .ok (h, (), i.id)) hasPay (fun _ => ()) (fun _ _ => allowlisted)
+          (fun n i => addAns (n.exec (.approve h i now))) (fun _ _ => approverYes) () n inv)
+      = (n.exec (proposalOp true allowlisted approverYes h inv now)).map (·.2) := by
+  unfold Approve.handle_proposed_invoice proposalOp hasPay
+  cases hi : n.invoices h with
+  | some old =>
+    by_cases e : old.id = inv.id
+    · cases allowlisted <;> cases approverYes <;>
+        simp [e, hi, ans_ok, Node.exec, Node.approve, Node.proposeDeclined, Rs.bind_ok]
+    · cases allowlisted <;> cases approverYes <;>
+        simp [e, hi, ans_err, Node.exec, Node.approve, Node.proposeDeclined, Rs.bind_ok, Rs.bind_err]
+  | none =>
+    cases allowlisted <;> cases approverYes <;>
+      simp only [Rs.bind_ok, Rs.pure_eq, Bool.false_eq_true, if_false, if_true, Bool.or_false, Bool.or_true,
+        Bool.and_true, Bool.and_false] <;>
+      simp [Node.exec, Node.proposeDeclined, hi, ans_addAns, ans_ok]
+
+/-- **`handle_proposed_keysend`** (generated) = `Node.exec (proposalOp false allowlisted approverYes …)`: the allowlist is
+    not consulted (TODO in the source), only the approver decides; the keysend's invoice hash is a function of
+    payee, hash, amount and the clock reading -/
+theorem C06_fn_handle_proposed_keysend (n : Node) (h : Hash) (inv : Invoice) (now : Nat) (allowlisted approverYes : Bool) :
+    ans (Approve.handle_proposed_keysend (SelfT := Unit) (Node := Node) (PublicKey := Unit) (PaymentHash := Hash)
+          (Duration := Nat) (PaymentState := Unit) (InvoiceHash := List Nat)
+          (fun _ => now) (fun _ _ _ _ => .ok ((), inv.id)) hasPay (fun _ _ _ => approverYes)
+          (fun n _ ph _ => addAns (n.exec (.approve ph inv now))) () n () h inv.amount)
+      = (n.exec (proposalOp false allowlisted approverYes h inv now)).map (·.2) := by
+  unfold Approve.handle_proposed_keysend proposalOp hasPay
+  cases hi : n.invoices h with
+  | some old =>
+    by_cases e : old.id = inv.id
+    · cases allowlisted <;> cases approverYes <;>
+        simp [e, hi, ans_ok, Node.exec, Node.approve, Node.proposeDeclined, Rs.bind_ok]
+    · cases allowlisted <;> cases approverYes <;>
+        simp [e, hi, ans_err, Node.exec, Node.approve, Node.proposeDeclined, Rs.bind_ok, Rs.bind_err]
+  | none =>
+    cases allowlisted <;> cases approverYes <;>
+      simp only [Rs.bind_ok, Rs.pure_eq, Bool.false_eq_true, if_false, if_true, Bool.or_false, Bool.or_true,
+        Bool.and_true, Bool.and_false, Bool.false_and] <;>
+      simp [Node.exec, Node.proposeDeclined, hi, ans_addAns, ans_ok]
+
+/-- non-vacuity: an allowlisted payee's invoice is registered although the approver declines; the same proposal as a
+    keysend is declined -/
+example :
+    let n := Node.init 2 ⟨10000, 10, 5⟩
+    let inv : Invoice := ⟨2000000, 1600003660, [1, 2000000, 1600000000, 0]⟩
+    (n.exec (proposalOp true true false 7 inv 1600000000)).map (·.2) = some true ∧
+    (n.exec (proposalOp false true false 7 inv 1600000000)).map (·.2) = some false := by
+  decide +kernel
+end VlsModel.Props.C06Fn
+
+/-! ### `Node::has_payment` (vls-core/src/node.rs, area `NodeApprove`, round 9): the shortcut of both proposal handlers -/
+namespace VlsModel.Props.C06Fn
+open VlsModel VlsModel.Payments
+
+/-- the generated `Node::has_payment` is the reading `hasPay` used above, for every generated node whose invoice table
+    carries the model's invoice ids (`invoice_hash`) -/
+theorem C06_fn_has_payment (n : Node) (g : Gen.FnNodeApprove.Node Hash) (h : Hash) (id : List Nat)
+    (hinv : (Rs.omapGet g.state.invoices h).map (·.invoice_hash) = (n.invoices h).map (·.id)) :
+    g.has_payment h id = hasPay n h id := by
+  unfold Gen.FnNodeApprove.Node.has_payment hasPay
+  cases hg : Rs.omapGet g.state.invoices h with
+  | none =>
+    rw [hg] at hinv
+    cases hn : n.invoices h with
+    | none => rfl
+    | some o => rw [hn] at hinv; simp at hinv
+  | some ps =>
+    rw [hg] at hinv
+    cases hn : n.invoices h with
+    | none => rw [hn] at hinv; simp at hinv
+    | some o =>
+      rw [hn] at hinv
+      simp only [Option.map_some, Option.some.injEq] at hinv
+      by_cases e : o.id = id
+      · simp [hinv, e]
+      · simp [hinv, e, Rs.fail]
 end VlsModel.Props.C06Fn
